@@ -89,8 +89,9 @@ def run(prog: Program, res: Result, tier: str) -> None:
     updates = []
     for m in cls.methods.values():
         rolls = [c for c in calls_in_body(m.node) if dotted(c.func) in ("np.roll", "numpy.roll")]
+        fm = flow_of(m)
         stores = [s for s in body_walk(m.node) if isinstance(s, ast.Assign) and isinstance(s.targets[0], ast.Subscript)
-                  and (dotted(_sub_base(s.targets[0])) or "").startswith("self.")]
+                  and (dotted(_sub_base(fm.expand(s.targets[0], fm.cfg.node_for(s)))) or "").startswith("self.")]
         if rolls and stores:
             updates.append(m)
     if len(updates) < 2:
@@ -111,13 +112,18 @@ def run(prog: Program, res: Result, tier: str) -> None:
             res.bad("R4", up, up.node, "update method does not take exactly one target argument", construct=up.name, key=up.name)
             continue
         arg = arg[0]
-        roll_stores = [s for s in body_walk(up.node) if isinstance(s, ast.Assign) and isinstance(s.value, ast.Call)
-                       and dotted(s.value.func) in ("np.roll", "numpy.roll")]
+        roll_stores = [s for s in body_walk(up.node) if isinstance(s, ast.Assign) and isinstance(s.targets[0], ast.Subscript) and
+                       isinstance(flow.expand(s.value, flow.cfg.node_for(s)), ast.Call)
+                       and dotted(flow.expand(s.value, flow.cfg.node_for(s)).func) in ("np.roll", "numpy.roll")]
         if len(roll_stores) != 1:
             res.bad("R4", up, up.node, "expected exactly one rotation store", construct=up.name, key=up.name)
             continue
         st = roll_stores[0]
-        tgt, call = st.targets[0], st.value
+        # look through views and temporaries (`row = self.data[i]; row[j] = np.roll(prof, shift)`); the loop variables stay
+        lvs = {n.id for l in ast.walk(up.node) if isinstance(l, ast.For) for n in ast.walk(l.target) if isinstance(n, ast.Name)}
+        tgt = flow.expand(st.targets[0], flow.cfg.node_for(st), stop=lvs)
+        call = flow.expand(st.value, flow.cfg.node_for(st), stop=lvs | {d.var for d in flow.defs if d.kind == "assign" and isinstance(d.value, ast.Call)
+                                                                         and (dotted(d.value.func) or "").startswith("self._get")})
         # same element read and written
         okel = len(call.args) >= 2 and norm(call.args[0]) == norm(tgt)
         # loops over all (subint, subband)
@@ -261,13 +267,23 @@ def run(prog: Program, res: Result, tier: str) -> None:
                 res.ok("R2", g, g.node, f"path [{' & '.join(norm(c) for c, _ in conds) or 'unconditional'}]: new {acc} depends "
                        f"only on '{garg}' and construction-time state", construct=g.name, key=key2)
         # zero at the folding value: the subject of a `== 0` test vanishes for target == immutable field
-        tests = [s for s in body_walk(g.node) if isinstance(s, ast.If) and isinstance(s.test, ast.Compare)
-                 and len(s.test.ops) == 1 and isinstance(s.test.ops[0], ast.Eq) and norm(s.test.comparators[0]) == "0"]
+        def _zero_test(t: ast.AST) -> ast.AST | None:
+            """The subject X of a test that distinguishes X == 0 from X != 0 (either polarity, either operand order)."""
+            while isinstance(t, ast.UnaryOp) and isinstance(t.op, ast.Not):
+                t = t.operand
+            if isinstance(t, ast.Compare) and len(t.ops) == 1 and isinstance(t.ops[0], (ast.Eq, ast.NotEq)):
+                if norm(t.comparators[0]) in ("0", "0.0"):
+                    return t.left
+                if norm(t.left) in ("0", "0.0"):
+                    return t.comparators[0]
+            return None
+
+        tests = [s for s in body_walk(g.node) if isinstance(s, ast.If) and _zero_test(s.test) is not None]
         key = f"{g.name}:zero"
         if len(tests) != 1:
             res.bad("R3b", g, g.node, "no single `delta == 0` restore branch", construct=g.name, key=key)
         else:
-            subj = flow.expand(tests[0].test.left, cfg.node_for(tests[0]))
+            subj = flow.expand(_zero_test(tests[0].test), cfg.node_for(tests[0]))
             r = RatEnv().rat(subj)
             ok = None
             for s in sorted(r.n.symbols()):
